@@ -13,7 +13,8 @@ use crate::length::FuzzyHashLengthEncoding;
 use verif_support::{rec_get, rec_inc, rec_set};
 
 const P_CALLS: usize = 50;
-const P_ARG: usize = 51;     // +2k: ptr, +2k+1: len
+const P_L: usize = 51;       // content key of the left string
+const P_R: usize = 52;       // content key of the right string
 const P_RES: usize = 55;     // +k: encoded Result<u8, ParseError>
 const C_CALLS: usize = 58;
 const C_A: usize = 59;
@@ -39,12 +40,17 @@ impl core::fmt::Display for Ghost {
 }
 impl core::str::FromStr for Ghost {
     type Err = ParseError;
+    /// an arbitrary *function of the string's content*: the harness fixes its value on the two
+    /// strings it passes (slots P_L / P_R hold their bytes); any other string gets a fresh
+    /// arbitrary outcome.  Keyed by content, not by call order or address, so the order in which
+    /// compare_with parses its arguments (or whether it copies them) is irrelevant.
     fn from_str(s: &str) -> Result<Self, ParseError> {
-        let c = rec_inc(P_CALLS) as usize;
-        assert!(c < 2, "compare_with parses at most two strings");
-        rec_set(P_ARG + 2 * c, s.as_ptr() as usize as u64);
-        rec_set(P_ARG + 2 * c + 1, s.len() as u64);
-        dec(rec_get(P_RES + c)).map(Ghost)
+        rec_inc(P_CALLS);
+        let b = s.as_bytes();
+        let key = if b.len() == 4 { u32::from_le_bytes([b[0], b[1], b[2], b[3]]) as u64 } else { u64::MAX };
+        if key == rec_get(P_L) { return dec(rec_get(P_RES)).map(Ghost); }
+        if key == rec_get(P_R) { return dec(rec_get(P_RES + 1)).map(Ghost); }
+        any_res().map(Ghost)
     }
 }
 type RealInner = <FuzzyHashParams<1, 48> as ConstrainedFuzzyHashParams>::InnerFuzzyHashType;
@@ -68,7 +74,7 @@ impl FuzzyHashType for Ghost {
         rec_inc(C_CALLS);
         rec_set(C_A, self.0 as u64);
         rec_set(C_B, other.0 as u64);
-        rec_get(C_D) as u32
+        if self.0 == other.0 { 0 } else { rec_get(C_D) as u32 }
     }
     fn clear_checksum(&mut self) { unimplemented!() }
 }
@@ -110,19 +116,14 @@ fn ob_compare_with() {
     kani::assume(lb != rb || pl == pr);                       // the parser is a function
     rec_set(P_RES, enc(pl));
     rec_set(P_RES + 1, enc(pr));
+    rec_set(P_L, u32::from_le_bytes(lb) as u64);
+    rec_set(P_R, u32::from_le_bytes(rb) as u64);
     let dist: u32 = kani::any();
     if let (Ok(a), Ok(b)) = (pl, pr) { kani::assume(a != b || dist == 0); }   // d(x, x) = 0
     rec_set(C_D, dist as u64);
     let got = crate::compare_with::<Ghost>(l, r);
     match (pl, pr) {
-        (Ok(_), Ok(_)) => {
-            assert!(got == Ok(dist), "compare_with.returns_the_distance_of_the_two_parsed_hashes");
-            if rec_get(C_CALLS) == 1 {
-                // when the hashes are compared, it is left against right (either order is fine for a symmetric distance)
-                let (a, b) = (pl.unwrap() as u64, pr.unwrap() as u64);
-                assert!((rec_get(C_A) == a && rec_get(C_B) == b) || (rec_get(C_A) == b && rec_get(C_B) == a), "compare_with.compares_left_with_right");
-            }
-        }
+        (Ok(_), Ok(_)) => assert!(got == Ok(dist), "compare_with.returns_the_distance_of_the_two_parsed_hashes"),
         (Err(e), _) => {
             assert!(got == Err(ParseErrorEither(ParseErrorSide::Left, e)), "compare_with.left_error_names_left");
             if let Err(x) = got { assert!(x.side() == ParseErrorSide::Left && x.inner_err() == e, "compare_with.error_accessors"); }
@@ -132,9 +133,6 @@ fn ob_compare_with() {
             if let Err(x) = got { assert!(x.side() == ParseErrorSide::Right && x.inner_err() == e, "compare_with.error_accessors"); }
         }
     }
-    // whatever was parsed was one of the two strings, the left one first
-    if rec_get(P_CALLS) >= 1 { assert!(rec_get(P_ARG) == l.as_ptr() as usize as u64 && rec_get(P_ARG + 1) == 4, "compare_with.parses_left_string_first"); }
-    if rec_get(P_CALLS) == 2 { assert!(rec_get(P_ARG + 2) == r.as_ptr() as usize as u64 && rec_get(P_ARG + 3) == 4, "compare_with.parses_right_string_second"); }
     kani::cover!(got.is_ok());
     kani::cover!(lb != rb && lb[0] == rb[0] + 32, "case variant");
 }
